@@ -52,6 +52,29 @@ func loadEngine(dir string) (*Engine, error) {
 	e.specDefs = map[string]*SpecDef{}
 	e.ghostFns = map[string]*GhostFn{}
 	e.collectFunctions()
+	e.capturedNames = map[string]bool{}
+	e.spawningFns = map[string]bool{}
+	for fn, name := range e.fnName {
+		for _, b := range fn.Blocks {
+			for _, in := range b.Instrs {
+				if _, ok := in.(*ssa.Go); ok {
+					e.spawningFns[name] = true
+				}
+				if ci, ok := in.(ssa.CallInstruction); ok {
+					if sc := ci.Common().StaticCallee(); sc != nil && (sc.String() == "context.AfterFunc" || sc.String() == "time.AfterFunc") {
+						e.spawningFns[name] = true
+					}
+				}
+				if mc, ok := in.(*ssa.MakeClosure); ok {
+					for _, bd := range mc.Bindings {
+						if al, ok := bd.(*ssa.Alloc); ok && al.Comment != "" {
+							e.capturedNames[name+"|"+al.Comment] = true
+						}
+					}
+				}
+			}
+		}
+	}
 	cs, err := parseContracts(dir + "/zz_contracts_verif.go")
 	if err != nil {
 		return nil, err
